@@ -6,6 +6,7 @@
 
 mod calls;
 mod pcterm;
+mod shape;
 
 use std::collections::HashMap;
 use std::io::{BufRead, Write};
@@ -363,6 +364,7 @@ fn handle(req: &Value) -> Value {
     let mut resp = match op {
         "run" => do_run(req),
         "call" => guarded(|| calls::do_call(req)),
+        "shape" => shape::do_shape(req),
         "bits_bridge" => guarded(|| calls::bits_bridge(req)),
         "pc" => guarded(|| pcterm::do_pc(req)),
         "ping" => json!({"pong": true}),
